@@ -1258,6 +1258,9 @@ pub fn tokens(doc: &[u8]) -> Vec<(usize, usize)> {
 
 pub fn mutate(rng: &mut SplitMix64, doc: &[u8]) -> (Vec<u8>, &'static str) {
     let toks = tokens(doc);
+    if toks.is_empty() {
+        return (vec![super::ALPHABET[rng.below(15) as usize]], "insert-symbols");
+    }
     let nt = toks.len().max(1) as u64;
     let pick = |rng: &mut SplitMix64| toks[rng.below(nt) as usize % toks.len().max(1)];
     match rng.below(12) {
@@ -1417,6 +1420,52 @@ pub fn main(args: &[String]) {
             }
         }
     }
+    // kind-targeted documents: every character-data kind (float, unsigned, preserved string, each of the 28 patterns, enum)
+    // as element text or attribute value, in every version (float / unsigned / preserve) resp. in a few versions (patterns)
+    fn kind_key(c: &CharacterDataSpec) -> String {
+        match c {
+            CharacterDataSpec::Enum { .. } => "enum".into(),
+            CharacterDataSpec::Pattern { regex, .. } => format!("pattern:{}", regex),
+            CharacterDataSpec::String { preserve_whitespace: true, .. } => "string-preserve".into(),
+            CharacterDataSpec::String { .. } => "string".into(),
+            CharacterDataSpec::UnsignedInteger => "uint".into(),
+            CharacterDataSpec::Float => "float".into(),
+        }
+    }
+    let mut kinds_hit: std::collections::BTreeSet<String> = Default::default();
+    for (vi, v) in vers.iter().enumerate() {
+        let ch = &chains_all[vi];
+        let mut by_kind: BTreeMap<String, Vec<ElementType>> = BTreeMap::new();
+        for t in ch.order.iter() {
+            if let Some(c) = t.chardata_spec() {
+                by_kind.entry(kind_key(c)).or_default().push(*t);
+            }
+            for (an, c, _) in t.attribute_spec_iter() {
+                if t.find_attribute_spec(an).map(|s| s.version & (*v as u32) != 0).unwrap_or(false) {
+                    by_kind.entry(format!("attr-{}", kind_key(c))).or_default().push(*t);
+                }
+            }
+        }
+        for (k, types) in by_kind.iter() {
+            let always = k == "float" || k == "uint" || k == "string-preserve" || k == "attr-float" || k == "attr-uint" || k == "attr-string-preserve";
+            let reps = if always { if thorough { 6 } else { 2 } } else if thorough { 2 } else if (vi + k.len()) % 7 == 0 { 1 } else { 0 };
+            for _ in 0..reps {
+                let t = types[g.rng.below(types.len() as u64) as usize];
+                let tree = g.gen_doc(*v, ch, Some(t), 12);
+                let st = g.style();
+                let doc = g.render(&tree, &st);
+                g.stat("docs.valid");
+                g.stat("docs.kind-targeted");
+                kinds_hit.insert(k.clone());
+                write_case(&mut fdocs, &doc, "valid");
+                if valid_docs.len() < 4000 {
+                    valid_docs.push(doc);
+                }
+                trees.push((tree, *v, vi));
+            }
+        }
+    }
+    g.stats.insert("kinds-targeted".into(), kinds_hit.len() as u64);
     // valid documents of the classes that are known to be mishandled
     for class in ["pattern-ref", "enc-blank", "split-text", "split-text-pi"] {
         let mut made = 0;
@@ -1473,7 +1522,7 @@ pub fn main(args: &[String]) {
         }
     }
     // mutants
-    let nmut = if thorough { 200000 } else { 5000 };
+    let nmut = if thorough { 200000 } else { 3000 };
     let mut mrng = SplitMix64(seed ^ 0xA0761D6478BD642F);
     // all token-boundary truncations of a few small documents
     let mut small: Vec<&Vec<u8>> = valid_docs.iter().filter(|d| d.len() < 1200).collect();
